@@ -118,14 +118,16 @@ def _leapfrog(chk, repo, ci):
             problems.append("target is not evaluated at the new point")
     chk.add("C08-R1", inst, not problems, site(repo, fn), "half/full/half step with equal coefficients, target at the new point", "; ".join(problems), fn)
     nt = repo.method(ci, "_nuts_target")[1]
-    rets = [n for n in ast.walk(nt) if isinstance(n, ast.Return)]
     x = func_params(nt)[1]
-    ok = len(rets) == 1 and _norm(rets[0].value) == f"(self.target.logd({x}),self.target.gradient({x}))"
+    from .common import closed_is
+    ok = closed_is(repo, ci, nt, f"(self.target.logd({x}),self.target.gradient({x}))")[0]
     chk.add("C08-R1", f"{ci.qual}._nuts_target", ok, site(repo, nt), "(target.logd(x), target.gradient(x))", "log-density and gradient are not both of self.target at the same x", nt)
     kf = repo.method(ci, "_Kfun")[1]
     r, fl = func_params(kf)[1:3]
-    t = _norm(kf)
-    ok = f"return 0.5*({r}.T@{r})" in t and "np.random.standard_normal(size=self.dim)" in t
+    from .common import case_effects, expected_text
+    e1, e2 = case_effects(repo, ci, kf, fl, "eval"), case_effects(repo, ci, kf, fl, "sample")
+    ok = bool(e1) and bool(e2) and all(e["kind"] == "return" and e["ret"] in (expected_text(f"0.5*({r}.T@{r})"), expected_text(f"0.5*({r}@{r})"), expected_text(f"0.5*{r}.T@{r}")) for e in e1) \
+        and all(e["kind"] == "return" and e["ret"] == expected_text("np.random.standard_normal(size=self.dim)") for e in e2)
     chk.add("C08-R1", f"{ci.qual}._Kfun", ok, site(repo, kf), "K(r) = r.r/2, r ~ N(0, I)", "kinetic energy / momentum draw changed", kf)
 
 
